@@ -343,8 +343,12 @@ pub fn inflight_subsets(rng: &mut Rng, writes: &[WriteRec], cap: usize) -> Vec<(
     let mut out = vec![];
     for (i, wi) in writes.iter().enumerate() {
         let t = wi.t_issue;
-        let completed: Vec<usize> = (0..=i).filter(|j| writes[*j].t_complete != 0 && writes[*j].t_complete < t).collect();
-        let inflight: Vec<usize> = (0..=i).filter(|j| !(writes[*j].t_complete != 0 && writes[*j].t_complete < t)).collect();
+        // membership by the stamps, not by log position: two flushers can take their issue stamps and their log slots in
+        // different orders, so a write with a larger issue stamp may sit at a smaller index
+        let issued = |j: &usize| writes[*j].t_issue <= t;
+        let done = |j: &usize| writes[*j].t_complete != 0 && writes[*j].t_complete < t;
+        let completed: Vec<usize> = (0..writes.len()).filter(|j| issued(j) && done(j)).collect();
+        let inflight: Vec<usize> = (0..writes.len()).filter(|j| issued(j) && !done(j)).collect();
         if inflight.len() < 2 || inflight.len() > 6 {
             continue;
         }
@@ -530,9 +534,7 @@ pub fn run_plan(plan: &Plan, tier: &str) -> Outcome {
             candidates.push((cp.clone(), img, reclaimed));
         }
         // crash states in which in-flight writes landed out of issue order
-        // Experimental (off unless VH_C04_INFLIGHT is set): this goes beyond the property's fault model (issue-order prefix +
-        // tear); an alarm it raised on the unchanged tree could not be triaged in time, so it does not contribute verdicts.
-        if out.problems.is_empty() && std::env::var("VH_C04_INFLIGHT").is_ok() {
+        if out.problems.is_empty() {
             for (i, applied) in inflight_subsets(&mut rng, &run.writes, if tier == "thorough" { 60 } else { 16 }) {
                 let mut img = base.clone();
                 for j in &applied {
@@ -540,8 +542,9 @@ pub fn run_plan(plan: &Plan, tier: &str) -> Outcome {
                 }
                 let reclaimed = reclaimed_before || applied.iter().any(|j| is_clean_write(cfg, &run.writes[*j]));
                 let mut hist: BTreeMap<u64, Vec<(Kind, Status)>> = BTreeMap::new();
-                let ops_here = run.ops.iter().filter(|o| o.writes_before <= i).map(|o| {
-                    let acked = matches!(o.acked_at, Some(a) if (0..a).all(|j| applied.contains(&j)) && a <= i);
+                let issued_at_t = run.writes.iter().filter(|w| w.t_issue <= run.writes[i].t_issue).count();
+                let ops_here = run.ops.iter().filter(|o| o.writes_before <= issued_at_t).map(|o| {
+                    let acked = matches!(o.acked_at, Some(a) if a <= issued_at_t && (0..a).all(|j| applied.contains(&j)));
                     (o.key, o.kind.clone(), if acked { Status::Acked } else { Status::Maybe })
                 });
                 for (k, kind, st) in carried.iter().cloned().chain(ops_here) {
@@ -564,6 +567,22 @@ pub fn run_plan(plan: &Plan, tier: &str) -> Outcome {
                 for (k, sn) in &seen {
                     out.lookups += 1;
                     if let Some((sig, detail)) = judge(cfg, &hist, reclaimed, *k, sn) {
+                        if std::env::var("VH_DEBUG").is_ok() && out.problems.is_empty() {
+                            eprintln!("--- SUBSET cycle {ci} i={i} applied {applied:?} key {k} seen {sn:?} sig {sig}");
+                            for w in &run.writes {
+                                eprintln!("  #{} part {} off {} len {} issue {} complete {} entries {:?}", w.seq, w.partition, w.offset, w.len, w.t_issue, w.t_complete, crate::c09::entries_in_write(w));
+                            }
+                            let d = DirGuard(hyb::scratch_dir("c04dbg"));
+                            img.write_to(&d.0);
+                            let pi = crate::image::parse_image(cfg, &d.0);
+                            for e in &pi.entries {
+                                eprintln!("  parsed: block {} blob@{} off {} len {} hash {} seq {} {:?}", e.block, e.blob_offset, e.offset, e.len, e.hash, e.sequence, e.payload);
+                            }
+                            for o in &run.ops {
+                                eprintln!("  op {:?}", o);
+                            }
+                            eprintln!("  hist {:?}", hist.get(k));
+                        }
                         if out.problems.len() < 4 {
                             out.problems.push((
                                 format!("{sig}:tomb={}:idx={}:inflight-subset", cfg.tombstone, cfg.blob_index_size),
